@@ -987,8 +987,12 @@ fn gen_op(r: &mut Rng, p: &mut Prog, base: ExpBase) {
                 return;
             }
             18 => {
-                // Sum / Product over a few nodes
-                let k = 2 + r.below(3);
+                // Sum / Product over a few nodes; the empty and the one-element iterator included
+                let k = match r.below(8) {
+                    0 => 0,
+                    1 => 1,
+                    _ => 2 + r.below(3),
+                };
                 let idxs: Vec<usize> = (0..k).map(|_| pick_node(r, n)).collect();
                 let prod = r.chance(0.4);
                 let mut model = if prod { R::one() } else { R::zero() };
@@ -1040,7 +1044,13 @@ fn gen_op(r: &mut Rng, p: &mut Prog, base: ExpBase) {
                 }
                 let real = guarded(move || if prod { vals.into_iter().product::<Scalar4>() } else { vals.into_iter().sum::<Scalar4>() });
                 let kind = if prod { "Product" } else { "Sum" };
-                finish_op(p, real, model, json!({kind: idxs}), kind, (idxs[0], idxs[1]), any_az);
+                let args = match idxs.len() {
+                    0 => (a, a), // no operand: any existing node serves as the (unused) provenance
+                    1 => (idxs[0], idxs[0]),
+                    _ => (idxs[0], idxs[1]),
+                };
+                p.tally.add(&format!("{kind}:operands={}", idxs.len()));
+                finish_op(p, real, model, json!({kind: idxs}), kind, args, any_az);
                 return;
             }
             _ => {
